@@ -186,6 +186,7 @@ func RunC17(s *sim.Sim, res *runner.Result) {
 			acts = append(acts, sim.Action{Key: "restart pkg", Weight: 40, Run: func() { w.Restart(); hook() }})
 		}
 		acts = append(acts, sim.Action{Key: "registry: a new tag is published", Weight: 2, Run: func() { c.publishTag(t) }})
+		acts = append(acts, sim.Action{Key: "a lock entry is in its legacy form (type only), as an older Crossplane wrote it", Weight: 1, Run: func() { c.legacyLockEntry(t) }})
 		if byHand {
 			acts = append(acts, sim.Action{Key: "user installs a dependency by hand under a name of their own", Weight: 1, Run: func() { c.installByHand(t, false) }})
 			acts = append(acts, sim.Action{Key: "user installs a mirror of a dependency (same path, another registry)", Weight: 1, Run: func() { c.installByHand(t, true) }})
@@ -246,6 +247,33 @@ func (c *c17) switchRoot(i int, rn string) {
 	_ = unstructured.SetNestedField(u.Object, next, "spec", "package")
 	if c.w.Direct.Update(ctx, u) == nil {
 		c.w.S.Probe("root-package-moved-to-other-version")
+	}
+}
+
+// legacyLockEntry rewrites one entry of the Lock the way Crossplane versions
+// before apiVersion/kind wrote it: the deprecated type field only.
+func (c *c17) legacyLockEntry(t *sim.Tape) {
+	ctx := context.Background()
+	u := &unstructured.Unstructured{}
+	u.SetGroupVersionKind(LockGVK)
+	if c.w.Direct.Get(ctx, types.NamespacedName{Name: "lock"}, u) != nil {
+		return
+	}
+	pkgs, _, _ := unstructured.NestedSlice(u.Object, "packages")
+	if len(pkgs) == 0 {
+		return
+	}
+	pm, _ := pkgs[t.Next(len(pkgs))].(map[string]any)
+	k, _ := pm["kind"].(string)
+	if k == "" {
+		return
+	}
+	pm["type"] = k
+	delete(pm, "kind")
+	delete(pm, "apiVersion")
+	_ = unstructured.SetNestedSlice(u.Object, pkgs, "packages")
+	if c.w.Direct.Update(ctx, u) == nil {
+		c.w.S.Probe("lock-entry-in-legacy-form")
 	}
 }
 
